@@ -319,6 +319,11 @@ class PolyInterp:
         if fn in ('radians', 'deg_2_rad'):
             src = ast.unparse(n.args[0])
             role = self.angle_role(src)
+            if role is None and isinstance(args[0], Poly):
+                # a local that merely carries an angle (`deg_pitch = pitch.pitch`): the role of the single symbol it holds
+                syms = list(args[0].t.items())
+                if len(syms) == 1 and len(syms[0][0]) == 1 and syms[0][0][0][1] == 1 and syms[0][1] == 1:
+                    role = self.angle_role(syms[0][0][0][0])
             if role is None:
                 raise AnalysisError(f'{self.filename}:{n.lineno}: angle source `{src}` has no role mapping')
             return Poly.sym('ang:' + role)
